@@ -136,7 +136,6 @@ public:
 
   int keyword() const { return _keyword; }
   Statement * next() const { return _next; }
-  size_t level() const { return _level; }
 
   void setNext(Statement * s) { _next = s; }
 
@@ -147,7 +146,6 @@ protected:
 
   Statement * _next   = nullptr;
   STATEMENT _keyword  = STMT_NOP;
-  mutable size_t _level  = 0;
 
   void unparse_next(Context& ctx, FILE * out) const;
 
